@@ -455,6 +455,12 @@ func checkC07(tr *CycleTrace, rep *ReplicaTrace, r Reporter) {
 // ------------------------------------------------------------------ C08
 
 func checkC08(tr *CycleTrace, rep *ReplicaTrace, r Reporter) {
+	scaleErr := false // a failed scale request legitimately ends this replica's cycle early
+	for _, sc := range rep.Scale {
+		if sc.Err {
+			scaleErr = true
+		}
+	}
 	for _, s := range rep.Shards {
 		hc := s.HealthClass(tr.CoordHash)
 		if !s.InSync {
@@ -466,7 +472,7 @@ func checkC08(tr *CycleTrace, rep *ReplicaTrace, r Reporter) {
 				r.Report("C08", "update-to-unsynced", "shard="+hc+",request=extra_config",
 					fmt.Sprintf("replica %s: shard %s (%s) was sent an extra-config update", rep.ID, s.ID, hc))
 			}
-		} else if s.Post == nil && !s.ExtraSeen {
+		} else if s.Post == nil && !s.ExtraSeen && !scaleErr {
 			r.Report("C08", "synced-shard-ignored", "",
 				fmt.Sprintf("replica %s: shard %s is ready, answered and reports the coordinator's hash but received no update request", rep.ID, s.ID))
 		}
